@@ -337,6 +337,33 @@ func (v *Verifier) globalObj(st *State, g *ssa.Global) (*Object, bool) {
 		v.assume("package-level ring constant " + g.Pkg.Pkg.Name() + "." + g.Name() + " is a fixed element (only the package initialiser stores to it: checked syntactically); its numeric value is not checked at the ring layer")
 		return o, true
 	}
+	if st0, isStruct := t.Underlying().(*types.Struct); isStruct && g.Pkg != nil && v.hasAbstractField(st0, 0) {
+		// record of parameters holding ring elements (curveParams): fixed symbolic components
+		if v.globalWrittenOutsideInitLike(g) {
+			return nil, false
+		}
+		var val Value
+		func() {
+			defer func() {
+				if r := recover(); r != nil {
+					if _, isU := r.(unsupported); !isU {
+						panic(r)
+					}
+				}
+			}()
+			val = v.symValue("glob."+g.Pkg.Pkg.Name()+"."+g.Name(), t, false)
+		}()
+		if val == nil {
+			return nil, false
+		}
+		o := v.newObject(g.Name(), t, true)
+		o.Global = true
+		v.globals[g] = o
+		v.globalInit[g] = val
+		st.mem[o] = val
+		v.assume("package-level parameter record " + g.Pkg.Pkg.Name() + "." + g.Name() + " is fixed (stored to only by functions named init*: checked syntactically; sync.Once initialisation is treated as already done); its numeric contents are not checked at the ring layer")
+		return o, true
+	}
 	// only arrays/structs of integers
 	val, ok := v.tryZero(t)
 	if !ok {
@@ -1010,4 +1037,20 @@ func (v *Verifier) markEscaped(val Value, st *State) {
 			v.markEscaped(x.V, st)
 		}
 	}
+}
+
+func (v *Verifier) hasAbstractField(st *types.Struct, depth int) bool {
+	if depth > 3 {
+		return false
+	}
+	for i := 0; i < st.NumFields(); i++ {
+		ft := st.Field(i).Type()
+		if v.isAbstract(ft) {
+			return true
+		}
+		if s2, ok := ft.Underlying().(*types.Struct); ok && v.hasAbstractField(s2, depth+1) {
+			return true
+		}
+	}
+	return false
 }
